@@ -373,10 +373,10 @@ def check_main(prop, tier, replay=None):
             print(f"  class={v['cls']} seed={m['seed']} group={m['group']} detail={v['detail'][:300]}")
         rcode = 1
     for kid, (kf, n, m) in known_hits.items():
-        print(f"KNOWN-FINDING: property={prop} {kid} {kf['what']} (hit in {n} runs, e.g. seed {m['seed']})")
+        print(f"KNOWN-FINDING: property={prop} {kid} {kf['what'][:200]} (hit in {n} runs, e.g. seed {m['seed']})")
     for kf in known:
         if kf["property"] == prop and kf.get("status") == "open" and kf["id"] not in known_hits:
-            print(f"KNOWN-FINDING: property={prop} {kf['id']} {kf['what']} (listed; not hit in this run)")
+            print(f"KNOWN-FINDING: property={prop} {kf['id']} {kf['what'][:200]} (listed; not hit in this run)")
     if harness_errors:
         for he in harness_errors[:5]:
             print("HARNESS-ERROR", json.dumps(he)[:1500])
